@@ -102,7 +102,22 @@ Definition gap_rename (st : state) (o : op) : bool :=
   | _ => false
   end.
 
-Definition gap (st : state) (o : op) : bool := gap_rejected st o || gap_rename st o.
+(* a merge whose symbols_to_skip names a ContainerSymbol or an imported symbol of the other table:
+   the container pass of the code ignores the skip list (known finding); a repaired implementation
+   differs from the faithful model on exactly these merges *)
+Definition gap_skip (st : state) (o : op) : bool :=
+  match o with
+  | OMerge t j skip =>
+      match nth_error (st_det st) j with
+      | Some Ot => existsb (fun s => mem_sid s (sids Ot)
+                                    && (is_container (hget (st_heap st) s) || is_import (hget (st_heap st) s)))
+                           skip
+      | None => false
+      end
+  | _ => false
+  end.
+
+Definition gap (st : state) (o : op) : bool := gap_rejected st o || gap_rename st o || gap_skip st o.
 
 (* ---- cases ------------------------------------------------------------------------------ *)
 (* observation after one operation: the result and the complete state -- [None] when the state
